@@ -235,6 +235,7 @@ func historyAlphabet() []call {
 		{Entry: "withlevel", Lvl: 5}, {Entry: "withlevel", Lvl: 4}, {Entry: "withlevel", Lvl: 4, Discard: true},
 		{Entry: "trace"}, {Entry: "info"}, {Entry: "warn", Discard: true}, {Entry: "error"}, {Entry: "log"},
 		{Entry: "withlevel", Lvl: -2}, {Entry: "withlevel", Lvl: 6}, {Entry: "withlevel", Lvl: 7}, {Entry: "withlevel", Lvl: 8},
+		{Entry: "print"}, {Entry: "write"},
 	}
 }
 
